@@ -146,6 +146,7 @@ func classesOf(hs map[string]bool, table map[string][]string) (map[string]bool, 
 }
 
 func checkC06(c *Ctx, r *Report) {
+	defer listPartRule(c, r)
 	r.Assumption("both directions are given the same options (struct tag name, path separator); Unpacker / InitDefaults implementations are user code")
 	nameRule(c, r)
 	pathRule(c, r)
@@ -1432,4 +1433,34 @@ func evalIntPredicate(fn *ssa.Function, k int64) (result bool, ok bool) {
 		}
 	}
 	return false, false
+}
+
+// listPartRule (R06l): the writer puts a slice or array into the list part of a node and named settings into the
+// dictionary part; the reader's castArr is where a node is read back as a list. For a sub-configuration it answers
+// with the list part — `fields.array()` — and only a primitive is wrapped as a list of one. A sub-configuration wrapped
+// as its own single element ("an object is a list of length 1") turns the dictionary part that dotted sibling names
+// created next to an empty list (hosts: [] beside hosts.balance) into an element the element type cannot take.
+func listPartRule(c *Ctx, r *Report) {
+	r.Rule("R06l", "castArr reads a sub-configuration as its list part (fields.array()): no cfgSub is stored as the element of a list it returns", 1)
+	fn := c.Func("", "castArr")
+	subT := c.Named("", "cfgSub")
+	arrayFn := c.Method("", "fields", "array")
+	bad := ""
+	Instrs(fn, false, func(in ssa.Instruction) {
+		st, ok := in.(*ssa.Store)
+		if !ok {
+			return
+		}
+		if _, isIdx := st.Addr.(*ssa.IndexAddr); !isIdx {
+			return
+		}
+		for _, src := range append([]ssa.Value{st.Val}, Sources(st.Val)...) {
+			if mi, isMI := src.(*ssa.MakeInterface); isMI && namedOf(mi.X.Type()) == subT {
+				bad = c.Pos(st.Pos())
+			}
+		}
+	})
+	n := len(CallsTo(fn, arrayFn, false))
+	r.Check(bad == "" && n > 0, "R06l", c.FnName(fn), "a sub-configuration is read as its list part", c.Pos(fn.Pos()), fmt.Sprintf("%d call(s) of fields.array(); no sub-configuration wrapped as an element", n),
+		"castArr wraps a sub-configuration as the single element of a list (at "+bad+") or no longer reads the list part: a node that has named settings only — the dictionary that dotted sibling names create next to an empty list — is handed to the element type as an object, and a struct that was merged no longer unpacks")
 }
